@@ -619,30 +619,39 @@ impl IoLoop {
 
         let mut events = Events::with_capacity(128);
         let mut listening_to_channels = true;
+        // The connection timeout bounds how long we wait without hearing from the server.
+        // Our own heartbeat timers going off (and the socket taking the heartbeat we then
+        // write) must not restart it: once heartbeats have been negotiated that happens
+        // more often than a longer timeout would allow.
+        let mut quiet_since = Instant::now();
         loop {
-            let start_poll = Instant::now();
+            #[allow(unused_mut)]
+            let mut poll_timeout = self
+                .connection_timeout
+                .map(|timeout| timeout.checked_sub(quiet_since.elapsed()).unwrap_or_default());
             #[cfg(amiquip_verif)]
             let verif_saved = crate::verif::io_gate(
-                &mut self.connection_timeout,
+                &mut poll_timeout,
                 self.inner.outbuf.len(),
                 self.inner.are_writes_sealed(),
                 self.inner.chan_slots.iter().count(),
             );
             self.poll
-                .poll(&mut events, self.connection_timeout)
+                .poll(&mut events, poll_timeout)
                 .context(FailedToPollSnafu)?;
             #[cfg(amiquip_verif)]
-            crate::verif::io_gate_restore(
-                &mut self.connection_timeout,
-                verif_saved,
-                events.iter().count(),
-            );
-            if events.is_empty() {
-                if let Some(timeout) = &self.connection_timeout {
-                    if start_poll.elapsed() > *timeout {
-                        return ConnectionTimeoutSnafu.fail();
-                    }
+            crate::verif::io_gate_restore(&mut poll_timeout, verif_saved, events.iter().count());
+            if let Some(timeout) = &self.connection_timeout {
+                if events
+                    .iter()
+                    .any(|event| event.token() == STREAM && event.readiness().is_readable())
+                {
+                    quiet_since = Instant::now();
+                } else if quiet_since.elapsed() >= *timeout {
+                    return ConnectionTimeoutSnafu.fail();
                 }
+            }
+            if events.is_empty() {
                 continue;
             }
 
